@@ -646,6 +646,10 @@ def gen_recon(rng):
     return c
 
 
+PINNED_SINGULAR_CG = {"cls": "SenseRecon", "solver": "ConjugateGradient", "cn": 1, "wg": 0, "lam": 0, "n": 2, "ish": [3, 3],
+                      "seed": 698530836, "b": 1, "consistent": 0, "reuse": False}
+
+
 def check_recon(ctx, c, origin):
     import sigpy as sp
     import sigpy.mri as mr
@@ -717,7 +721,22 @@ def check_recon(ctx, c, origin):
     ctx.count("recon:%s:%s:%s:lam%s" % (kind, c["solver"], "cart" if c["cn"] else "noncart", "0" if lam == 0 else "+"))
     tol = 1e-3 * (abs(fref) + 1e-3 * abs(f0) + 1e-12) + 1e-6 * abs(f0)
     if not np.isfinite(fo) or gap > tol:
-        ctx.fail("C16:%s:%s:objective" % (kind, c["solver"]), "%s(%s) output is not the minimiser of the documented objective" % (kind, c["solver"]),
+        key = "C16:%s:%s:objective" % (kind, c["solver"])
+        if c["solver"] == "ConjugateGradient" and lam == 0 and kind == "SenseRecon" and np.linalg.matrix_rank(Ad, tol=1e-8) < R:
+            # the recorded finding (known_findings.json): lamda = 0 and a rank-deficient weighted encoding make the CG system
+            # singular; in exact arithmetic CG still reaches a minimiser within rank(A) updates, in floating point the
+            # updates AFTER convergence amplify rounding noise until the iterate blows up.  It is this class only when the
+            # same reconstruction stopped after R = dim updates IS a minimiser (checked here on the real code); any other
+            # failure keeps the general key and is reported as a violation.
+            try:
+                kw2 = dict(kw, max_iter=R)
+                xs = cls(y.copy(), mps.copy(), lam, weights=None if w is None else w.copy(), coord=coord, **kw2).run()
+                fs = objective(kind, Ad, yv, lam, T, np.asarray(xs).ravel())
+                if np.isfinite(fs) and fs - fref <= tol:
+                    key = "C16:SenseRecon:ConjugateGradient:singular-lamda0-past-convergence"
+            except Exception:  # noqa
+                pass
+        ctx.fail(key, "%s(%s) output is not the minimiser of the documented objective" % (kind, c["solver"]),
                  dict(kind="recon", case=c), observed=dict(objective=fo, reference=fref, at_zero=f0), expected="gap <= %.3g" % tol, origin=origin)
         ok = False
     if c["consistent"] and lam == 0 and np.linalg.matrix_rank(Ad, tol=1e-8) == R:
@@ -765,6 +784,8 @@ def search(ctx, budget):
                     cc = gen_recon(rng)
                 cc["solver"] = s
                 cases.append(cc)
+    # pinned instance of the recorded finding C16:SenseRecon:ConjugateGradient:singular-lamda0-past-convergence (run in every tier)
+    cases.append(dict(PINNED_SINGULAR_CG))
     for c in cases:
         ctx.case(("oracle-recon", json.dumps(c, sort_keys=True)))
         check_recon(ctx, c, "search")
